@@ -1440,7 +1440,6 @@ func submatchGroups(coll ssa.Value) (int, bool) {
 	return 0, false
 }
 
-
 // nonNilInterface: the interface value cannot be nil at the instruction - it is the result of a pandora function all of
 // whose returns wrap a non-nil value, or it was returned together with an error that is known to be nil here.
 func nonNilInterface(v ssa.Value, at ssa.Instruction, depth int) string {
